@@ -463,9 +463,27 @@ func (w *world) getMD(task int, ks *keySt, suf int, view mdGetter, via string) {
 	w.absentCheck(ks, quiet, epoch, err == nil, "GetMetadata via "+via)
 }
 
+// duringDelete reports whether an observation that began with (dels,
+// deleting) overlapped a Delete of the key. Delete removes the memory entry,
+// then aborts the flush, then removes the disk entry; a flush that passes its
+// abort check in between creates the (incomplete) disk entry, so lock-free
+// observers can see present, absent, present, absent inside one Delete. The
+// statement covers a blob "until it is deleted" and a key once deleted; what
+// Has/Open report while the Delete is still running constrains nothing
+// (DESIGN.md §12). Resurfacing after the Delete returned stays judged by
+// absentCheck and by every later observation.
+func (w *world) duringDelete(ks *keySt, dels int, deleting bool) bool {
+	if deleting || ks.deletes != dels {
+		w.s.Probe("existence_read_during_delete")
+		return true
+	}
+	return false
+}
+
 func (w *world) has(task int, ks *keySt) {
 	s := w.s
 	quiet, epoch := ks.quietAbsent(), ks.creates
+	dels, deleting := ks.deletes, ks.deleting > 0
 	call := s.NextSeq()
 	in, _ := w.ts.Has(ks.name)
 	var size int64
@@ -480,7 +498,11 @@ func (w *world) has(task int, ks *keySt) {
 		if in {
 			r = rOK
 		}
-		w.record(ks, task, hIn{kind: hHas, via: "tiered.Has"}, hOut{r: r}, call, ret)
+		if w.duringDelete(ks, dels, deleting) {
+			s.Logf("task %d [%d,%d] %s Has during a Delete -> %v (not part of the history)", task, call, ret, ks.name, in)
+		} else {
+			w.record(ks, task, hIn{kind: hHas, via: "tiered.Has"}, hOut{r: r}, call, ret)
+		}
 		w.absentCheck(ks, quiet, epoch, in, "Has")
 	} else {
 		s.Logf("task %d [%d,%d] %s Has -> %v, Stat -> %d %v", task, call, ret, ks.name, in, size, serr == nil)
@@ -501,6 +523,7 @@ func (w *world) has(task int, ks *keySt) {
 func (w *world) readBack(task int, ks *keySt, via string, open func(string) (storelib.FileReadWriter, error), positional bool) {
 	s, tp := w.s, w.s.Tape
 	quiet, epoch := ks.quietAbsent(), ks.creates
+	dels, deleting := ks.deletes, ks.deleting > 0
 	call := s.NextSeq()
 	f, oerr := open(ks.name)
 	var got []byte
@@ -538,7 +561,7 @@ func (w *world) readBack(task int, ks *keySt, via string, open func(string) (sto
 		class = "read-error"
 	}
 	s.Logf("task %d [%d,%d] %s Open+read via %s -> %s %x", task, call, ret, ks.name, via, class, got)
-	if via == "tiered.Open" && (oerr == nil || class == "notexist") {
+	if via == "tiered.Open" && (oerr == nil || class == "notexist") && !w.duringDelete(ks, dels, deleting) {
 		r := rNotExist
 		if oerr == nil {
 			r = rOK
